@@ -34,5 +34,14 @@ int open(const char *p, int fl, ...) {
     }
     return real(p, fl, md);
 }
+/* a try-lock attempted by a worker while the other workers are inside their calls may find the lock taken: the first attempt of every
+ * worker thread reports EBUSY (a legal outcome whenever other threads use the library); the unchanged library never try-locks */
+static __thread int tried;
+int pthread_mutex_trylock(pthread_mutex_t *m) {
+    static int (*real)(pthread_mutex_t *);
+    if (!real) real = (int (*)(pthread_mutex_t *)) dlsym(RTLD_NEXT, "pthread_mutex_trylock");
+    if (my_id >= 0 && !tried) { tried = 1; return EBUSY; }
+    return real(m);
+}
 int execve(const char *p, char *const a[], char *const e[]) { (void)p; (void)a; (void)e; errno = ENOENT; return -1; }
 int execv(const char *p, char *const a[]) { (void)p; (void)a; errno = ENOENT; return -1; }
